@@ -511,6 +511,37 @@ impl<'a> PatGen<'a> {
     }
 }
 
+/// instantiates `p`; the `nth` (0-based) occurrence of variable `var` gets `other` instead
+fn inst_with_override(p: &Pat, sub: &BTreeMap<u32, Tm>, var: u32, nth: usize, other: &Tm, seen: &mut usize) -> Tm {
+    match p {
+        Pat::Var(v) => {
+            if *v == var {
+                let k = *seen;
+                *seen += 1;
+                if k == nth {
+                    return other.clone();
+                }
+            }
+            sub[v].clone()
+        }
+        Pat::Node { op, pay, slots, kids } => Tm {
+            op: *op,
+            pay: *pay,
+            slots: slots.clone(),
+            kids: kids.iter().map(|(b, k)| Kid { binders: b.clone(), t: inst_with_override(k, sub, var, nth, other, seen) }).collect(),
+        },
+        Pat::Subst(..) => panic!("harness: subst pattern on the left"),
+    }
+}
+
+fn count_var(p: &Pat, var: u32) -> usize {
+    match p {
+        Pat::Var(v) => (*v == var) as usize,
+        Pat::Node { kids, .. } => kids.iter().map(|(_, k)| count_var(k, var)).sum(),
+        Pat::Subst(a, b, c) => count_var(a, var) + count_var(b, var) + count_var(c, var),
+    }
+}
+
 fn small_term(rng: &mut Rng, slots: &[S], depth: usize) -> Tm {
     if depth == 0 || rng.chance(1, 2) {
         return match rng.below(4) {
@@ -608,7 +639,10 @@ impl Check for FireCheck {
         }
         run.ops.push(sub);
         // how the instance is planted
-        run.set("plant_mode", rng.below(3) as i64); // 0 literal, 1 up to equality, 2 literal + symmetric child
+        // 0 literal, 1 up to equality, 2 literal + symmetric child,
+        // 3 repeated variable whose occurrences are different but (by an asserted symmetry) equal
+        run.set("plant_mode", rng.below(4) as i64);
+        run.set("root_extra", rng.below(3) as i64);
         run.set("plant_var", rng.below(nvars.max(1) as usize) as i64);
         run.set("rename_free", rng.below(3) as i64);
         run.set("distractors", rng.below(3) as i64);
@@ -688,8 +722,9 @@ impl Check for FireCheck {
                 return out;
             }
         }
-        let mode = run.get("plant_mode").rem_euclid(3);
+        let mode = run.get("plant_mode").rem_euclid(4);
         let pv = vars.get(run.get("plant_var").rem_euclid(vars.len().max(1) as i64) as usize).copied();
+        let mut root_term: Tm = li.clone();
         let planted = catch_op(|| {
             // distractors first
             for d in 0..run.get("distractors").rem_euclid(3) {
@@ -706,9 +741,32 @@ impl Check for FireCheck {
                     sub2.insert(v, tau2.clone());
                     let l2 = l.inst(&sub2).rename_keep_binders(&rho);
                     s.add_term(&l2, false);
+                    root_term = l2.clone();
                     let a = tau.rename_keep_binders(&rho);
                     let b = tau2.rename_keep_binders(&rho);
                     s.union_terms(&a, &b, true, false);
+                }
+                (3, _) => {
+                    // a variable that occurs twice and whose term has two free slots: the second
+                    // occurrence is the term with those slots swapped, equal only by a symmetry
+                    let cand = vars.iter().copied().find(|v| count_var(&l, *v) >= 2 && sub[v].free_vec().iter().filter(|x| **x >= 20 || **x < BOUND_BASE).count() >= 2);
+                    match cand {
+                        Some(v) => {
+                            let tau = sub[&v].clone();
+                            let fs: Vec<S> = tau.free_vec().into_iter().filter(|x| *x >= 20 || *x < BOUND_BASE).collect();
+                            let m: BTreeMap<S, S> = [(fs[0], fs[1]), (fs[1], fs[0])].into_iter().collect();
+                            let sw = tau.rename_keep_binders(&m);
+                            let l3 = inst_with_override(&l, &sub, v, 1, &sw, &mut 0).rename_keep_binders(&rho);
+                            s.add_term(&l3, false);
+                            root_term = l3.clone();
+                            let a = tau.rename_keep_binders(&rho);
+                            let b = sw.rename_keep_binders(&rho);
+                            s.union_terms(&a, &b, true, false);
+                        }
+                        None => {
+                            s.add_term(&li, false);
+                        }
+                    }
                 }
                 (2, Some(v)) => {
                     s.add_term(&li, false);
@@ -724,6 +782,12 @@ impl Check for FireCheck {
                 _ => {
                     s.add_term(&li, false);
                 }
+            }
+            // make the class of the instance bigger: balanced unions with other terms
+            for e in 0..run.get("root_extra").rem_euclid(3) {
+                let fs = root_term.free_vec();
+                let other = fs.iter().fold(Tm::pay("k", 20 + e as u32), |acc, x| Tm::node("g", vec![*x], vec![(vec![], acc)]));
+                s.union_terms(&root_term, &other, true, false);
             }
             if run.get("probes") != 0 {
                 run_probes(&mut s, run.get("hash_seed"), 7);
